@@ -280,6 +280,11 @@ func values(pkg string) []Case {
 			v.Pkg = pkg
 			cs = append(cs, v)
 		}
+		for k, p := 1, uint64(10); k <= 19; k, p = k+1, p*10 { // every power of ten and its neighbours, in each position
+			for _, x := range []uint64{p - 1, p, p + 1} {
+				cs = append(cs, Case{Pkg: pkg, Major: x, Minor: 2, Patch: 3}, Case{Pkg: pkg, Major: 1, Minor: x, Patch: x, Pre: "rc"})
+			}
+		}
 	case "size":
 		for _, n := range []uint64{0, 1, 10, 999, 1000, 1023, 1024, 1025, 1234567, 1 << 20, 1<<20 + 1, 1 << 30, 1 << 40, 1 << 50, 1 << 60, 15 << 60, 1<<63 + 1, ^uint64(0), ^uint64(0) - 1023, 999999999999, 123456789012345678, 20480} {
 			cs = append(cs, Case{Pkg: pkg, N: n})
